@@ -13,14 +13,15 @@ META = {
                  "valid fonts round-trip) + differential run on bytes written by others: fixtures of format 1/2/3, trees "
                  "rendered by an independent writer with random legal syntax, generated legacy trees, mutated trees",
     "text": "Kernel-checked theorems: every font norad loads from a format-3 tree is a valid font (C04_load_yields_valid: "
-            "norad's own part — no left-over public.objectLibs, default layer first and unique, distinct directories and "
-            "file names, object libs only on identified guidelines — proved; the per-part closedness, e.g. parse_glif "
-            "yields valid glyphs, is a hypothesis sig_closed), a valid loaded font is saved and loaded again as an equal "
-            "font for every write option (C04_fixed_point), whatever the input format the loaded font and the written "
-            "metainfo say format 3 (C04_legacy_becomes_v3, C04_output_is_v3); the full statement is refuted by a tree "
-            "with public.objectLibs and no fontinfo.plist (C04_refuted_orphan_object_libs, reproduced on the "
-            "implementation). On every run dump(load(x)) is compared with dump(load(save(load(x)))) for all inputs, and "
-            "for format-3 inputs the model's load / save / load is compared with the implementation's.",
+            "norad's own part — public.objectLibs always consumed, default layer first and unique, distinct layer names, "
+            "directories and glif file names (checked by load since 83f6c18 / afd801a), object libs only on identified "
+            "guidelines — proved; the per-part closedness, e.g. parse_glif yields valid glyphs, is a hypothesis "
+            "sig_closed), and therefore every loaded font is saved and loaded again as an equal font for every write "
+            "option (C04_fixed_point, full strength), whatever the input format the loaded font and the written metainfo "
+            "say format 3 (C04_legacy_becomes_v3, C04_output_is_v3). On every run dump(load(x)) is compared with "
+            "dump(load(save(load(x)))) for all inputs, and for format-3 inputs the model's load / save / load (or its "
+            "refusal: duplicate layer name / directory, reserved name, glif file used twice) is compared with the "
+            "implementation's.",
     "note": "Format 1/2 conversion (C14, C15) is abstract in the model; the legacy inputs are covered by the oracle only. "
             "That every written glif says format 2 is a fact of the glif encoder (C02); it is observed on every output.",
 }
@@ -169,7 +170,8 @@ def mutate(rng, ufo):
     """apply one random mutation in place; returns its name"""
     kind = rng.choice(["drop_optional", "drop_layerinfo", "comment_plist", "decl", "crlf_plist", "move_default",
                        "orphan_object_libs", "meta_minor", "bom", "extra_file", "glif_attr_order", "truncate_features",
-                       "dup_layer_entry", "empty_groups", "glif_formatminor", "objlibs_unknown_id"])
+                       "dup_layer_entry", "empty_groups", "glif_formatminor", "objlibs_unknown_id",
+                       "dup_layer_name", "reserved_name", "dup_glif_file"])
 
     def rd(p):
         with open(p, "rb") as f:
@@ -262,6 +264,27 @@ def mutate(rng, ufo):
             wr(p, b.replace(items[-1], items[-1] + "\n" + items[-1], 1).encode("utf-8"))
     elif kind == "empty_groups":
         wr(P("groups.plist"), plist_doc({}))
+    elif kind in ("dup_layer_name", "reserved_name"):
+        # a second layer entry: same name as an existing layer (other directory) / public.default outside glyphs
+        p = P("layercontents.plist")
+        b = rd(p).decode("utf-8")
+        m = re.search(r"<array>\s*<string>(.*?)</string>\s*<string>(.*?)</string>\s*</array>", b, re.S)
+        if m:
+            name = m.group(1) if kind == "dup_layer_name" else "public.default"
+            newdir = "glyphs.mutated"
+            if not os.path.exists(P(newdir)):
+                os.makedirs(P(newdir))
+                wr(P(newdir, "contents.plist"), plist_doc({}))
+            wr(p, b.replace(m.group(0), m.group(0) + "\n<array><string>%s</string><string>%s</string></array>" % (name, newdir), 1).encode("utf-8"))
+    elif kind == "dup_glif_file":
+        c = [x for x in _files(ufo, "contents.plist")]
+        rng.shuffle(c)
+        for p in c:
+            b = rd(p).decode("utf-8")
+            m = re.search(r"<key>.*?</key>\s*<string>(.*?)</string>", b, re.S)
+            if m:
+                wr(p, b.replace(m.group(0), m.group(0) + "<key>zz.mutated.dup</key><string>%s</string>" % m.group(1), 1).encode("utf-8"))
+                break
     return kind
 
 
@@ -335,7 +358,7 @@ def run(ctx, known, built):
     # 2. generated fonts rendered by the independent writer with random legal syntax
     gdir = os.path.join(ctx.scratch, "gen")
     rc, o = sh([ctx.harness, "c04", "--out", gdir, "--seed", str(ctx.seed), "--count", str(n_written),
-                "--gen", "f13_meta,cr_in_plist,empty_contours,note_blanks,cr_in_note"], timeout=3000)
+                "--gen", "f13_meta,cr_in_plist,empty_contours,note_blanks,cr_in_note,f2_numbers,subnormal_advance,attr_ws"], timeout=3000)
     if rc != 0:
         ctx.disagreements.append({"what": "harness c04 (generation) failed", "output": o[-1500:]})
         return
@@ -399,6 +422,20 @@ def run(ctx, known, built):
             err = open(os.path.join(cd, "first_error.txt")).read()
             if err.startswith("PANIC"):
                 ctx.disagreements.append({"what": "Font::load panicked (C03)", "input": name, "kind": kind, "info": info, "error": err[:300]})
+            # the refusals norad's own load logic makes are modelled: compare the error variant
+            code = None
+            for pat, cd_ in (("DuplicateLayerName", 12), ("DuplicateLayerDirectory", 13), ("ReservedLayerName", 14),
+                             ("DuplicateGlyphFileName", 15)):
+                if pat in err:
+                    code = cd_
+            if code is not None and "crlf_plist" not in (info.get("mutations") or []):
+                try:
+                    t_in = fc.read_tree(os.path.join(cd, "in.ufo"))
+                    if t_in["meta"] and t_in["meta"][2] == 3:
+                        corr.append((name, fc.tree_term(os.path.join(cd, "in.ufo")), fc.e_l([fc.e_n(3), fc.e_n(code)])))
+                        stats["refusals_compared"] += 1
+                except Exception:
+                    stats["not_modelled_inputs"] += 1
             continue
         first = _load(os.path.join(cd, "first.json"))
         stats["loaded"] += 1
@@ -406,19 +443,10 @@ def run(ctx, known, built):
         in_class = None
         if os.path.exists(os.path.join(cd, "save_error.txt")):
             err = open(os.path.join(cd, "save_error.txt")).read()
-            dirs = [l.get("dir") for l in first["layers"]]
-            if "PreexistingPublicObjectLibsKey" in err and has_object_libs_key(first):
-                in_class = "orphan_object_libs"
-            elif "CreateDir" in err and "AlreadyExists" in err and len(set(dirs)) < len(dirs):
-                in_class = "duplicate_layer_entry"
-            if in_class:
-                class_hits[in_class] += 1
-                if in_class in known_ids:
-                    ctx.known_hits[in_class] = ctx.known_hits.get(in_class, 0) + 1
-            if in_class is None or in_class not in known_ids:
-                v = dict(base)
-                v.update({"save_error": err[:400], "tree": tree_text(), "demand": "a font that was loaded can be saved"})
-                ctx.violations.append(v)
+            # (the former classes orphan_object_libs / duplicate_layer_entry were repaired by 1c81824 / 83f6c18)
+            v = dict(base)
+            v.update({"save_error": err[:400], "tree": tree_text(), "demand": "a font that was loaded can be saved"})
+            ctx.violations.append(v)
         elif os.path.exists(os.path.join(cd, "second_error.txt")):
             v = dict(base)
             v.update({"second_load_error": open(os.path.join(cd, "second_error.txt")).read()[:400], "tree": tree_text(),
@@ -463,9 +491,7 @@ def run(ctx, known, built):
             if t_in["meta"] and t_in["meta"][2] == 3:
                 term = fc.tree_term(os.path.join(cd, "in.ufo"))
                 ef = fc.e_font(fc.font_obs(first))
-                if in_class == "orphan_object_libs":
-                    corr.append((name, term, fc.e_l([fc.e_n(1), ef, fc.e_n(2)])))
-                elif os.path.exists(os.path.join(cd, "second.json")):
+                if os.path.exists(os.path.join(cd, "second.json")):
                     tr = fc.read_tree(os.path.join(cd, "r.ufo"))
                     corr.append((name, term, fc.e_l([fc.e_n(0), ef, fc.e_tree(tr),
                                                      fc.e_ok(fc.e_font(fc.font_obs(_load(os.path.join(cd, "second.json")))))])))
